@@ -121,7 +121,9 @@ def _real(gtf, k0, k1, k2, dg, dt, from_string, st):
                 f.write(text)
             gffutils.create_db(inp, out, **kw)
         left = sorted(os.listdir(d))
-        return None if not left else "files left in the temporary directory after create_db returned: %r" % left
+        if left:
+            return "files left in the temporary directory after create_db returned: %r" % left
+        return forked_names(gtf)
     finally:
         tempfile.tempdir = old
         import shutil
@@ -132,3 +134,37 @@ def trace(fmt, from_string):
     """file events of one representative import (for the interleaving model)"""
     log, left, inp = _run(fmt, 0, 1, 2, False, False, from_string, "create_unique")
     return [e for e in log if e[0] in ("create", "open-w", "close", "open-r", "unlink")], inp
+
+
+def forked_names(gtf):
+    """real stack: two forked processes import at the same time into one shared temp dir with _keep_tempfiles; each
+    must have used its own intermediate file (name independence)"""
+    import multiprocessing
+    import os
+    import shutil
+    import tempfile
+    d = tempfile.mkdtemp(prefix="verif-c20f-", dir=os.environ.get("VERIF_SCRATCH"))
+    old = tempfile.tempdir
+    tempfile.tempdir = d
+    try:
+        text = (GTF[0] % 0 + "\n" + GTF[1] % 1 + "\n") if gtf else (GFF[0] % 0 + "\n" + GFF[1] % 0 + "\n" + GFF[2] % 0 + "\n")
+        inp = os.path.join(d, "input.txt")
+        with open(inp, "w") as f:
+            f.write(text)
+
+        def work(i):
+            gffutils.create_db(inp, os.path.join(d, "out%d.db" % i), _keep_tempfiles=True)
+
+        ctx = multiprocessing.get_context("fork")
+        ps = [ctx.Process(target=work, args=(i,)) for i in range(2)]
+        for p in ps:
+            p.start()
+        for p in ps:
+            p.join()
+        kept = sorted(f for f in os.listdir(d) if f.endswith(".gffutils"))
+        if len(kept) != 2:
+            return "two forked imports sharing a temp dir used %d distinct intermediate file name(s): %r" % (len(kept), kept)
+        return None
+    finally:
+        tempfile.tempdir = old
+        shutil.rmtree(d, ignore_errors=True)
